@@ -12,13 +12,16 @@
    Two layers: (1) archive API level; (2) byte level, first relative to the bin-archive round trip as an explicit
    premise (C17_round_trip), then with the premise discharged by C01 through Proofs/RecsBinBridge.v
    (C17_round_trip_final: no premise, no axiom).  Byte level needs in addition: NUL-free strings (the empty
-   string is allowed), no set labelled AnimClipNameTable (the table lookup would depend on the hash order:
-   Example C17_table_label_reserved), image below 2^32.
+   string is allowed) and image below 2^32 - and NO condition on the labels: the repaired code (finding F22, fix 10408e9)
+   looks the table up at the LOWEST address carrying the label AnimClipNameTable, the table is written at 12 and every
+   set behind it, so a set carrying that label round-trips too, for every order of the label map
+   (C17_table_lookup_order_independent, Examples C17_regression_F22_in_domain, _bytes, _adversarial_order).
    Tied to src/aset.rs by `./check C17`. *)
 From Coq Require Import List NArith ZArith Bool.
 From Mila Require Import Lib.Bytes Lib.Machine Model.BinArchive Model.BinStreams Model.BinFormat Model.ASet
-  Proofs.RecsCells Proofs.RecsBytes Proofs.ASetBits Proofs.ASetWrite Proofs.ASetRead Proofs.ASetRoundTrip.
+  Proofs.RecsCells Proofs.RecsBytes Proofs.FindLabel Proofs.ASetBits Proofs.ASetWrite Proofs.ASetRead Proofs.ASetRoundTrip.
 From Mila Require Proofs.RecsTotal.
+From Coq Require Import Permutation.
 Import ListNotations.
 Local Open Scope N_scope.
 
@@ -70,10 +73,17 @@ Theorem C17_reader_inverts_layout : forall v a,
   (forall x, SETS_AT <= x -> am_get x (a_labels a) = am_get x (sets_labels SETS_AT (as_sets v))) ->
   from_archive a = Ok v.
 Proof. exact from_archive_layout. Qed.
-(* ... in particular every archive observationally equal to the built one, whatever the order of its label map *)
+(* ... in particular every archive observationally equal to the built one, whatever the order of its label map and whatever
+   labels the sets carry *)
 Theorem C17_reader_observational : forall v a',
-  wf_aset v -> no_acnt v -> obs_equal (built v) a' -> from_archive a' = Ok v.
+  wf_aset v -> obs_equal (built v) a' -> from_archive a' = Ok v.
 Proof. exact from_archive_obs_equal. Qed.
+(* the table lookup: the lowest address carrying the label; the same for every order of the label map (HashMap iteration) *)
+Theorem C17_table_lookup_order_independent : forall a a' t,
+  Permutation (a_labels a) (a_labels a') -> find_label_address a t = find_label_address a' t.
+Proof. exact find_label_address_perm. Qed.
+Theorem C17_table_lookup_built : forall v, find_label_address (built v) ACNT = Some 12.
+Proof. exact find_table_built. Qed.
 
 Theorem C17_reserialize_identical_archive : forall v a v',
   wf_aset v -> build v = Ok a -> from_archive a = Ok v' -> v' = v /\ build v' = Ok a.
@@ -153,9 +163,20 @@ Example C17_example_normalises :
   let v := {| as_meta := None; as_table := repeat None 257; as_sets := [[None; Some [97]; None; Some [98]]; repeat (Some [120]) 259] |} in
   exists a, build v = Ok a /\ from_archive a = Ok (norm_aset v) /\ norm_aset v <> v.
 Proof. intros; eexists. split; [vm_compute; reflexivity | split; [vm_compute; reflexivity | discriminate]]. Qed.
-(* the label AnimClipNameTable is reserved: with it on a set the lookup finds the table at 12 only because the
-   model's map keeps insertion order; from_bytes/hash order may return the set's address instead *)
-Example C17_table_label_reserved :
-  let v := {| as_meta := None; as_table := repeat None 257; as_sets := [Some ACNT :: repeat None 256] |} in
-  exists a, build v = Ok a /\ a_labels a = [(12, [ACNT]); (1040, [ACNT])].
-Proof. intros; eexists. split; [vm_compute; reflexivity | vm_compute; reflexivity]. Qed.
+(* regression, finding F22 (review r5): meta "m", table[0] = "c0", ONE SET LABELLED AnimClipNameTable with slot 1 = "a".  Before
+   fix 10408e9 the real crate failed on this value in 22 of 40 runs (find_label_address returned the first hit in hash order).
+   It is inside the domain of C17_round_trip_final ... *)
+Definition f22_witness : aset :=
+  {| as_meta := Some [109]; as_table := Some [99; 48] :: repeat None 256;
+     as_sets := [Some ACNT :: Some [97] :: repeat None 255] |}.
+Example C17_regression_F22_in_domain : wf_aset_bytes f22_witness.
+Proof. apply wf_aset_bytesb_sound. vm_compute. reflexivity. Qed.
+(* ... its bytes round-trip in the model ... *)
+Example C17_regression_F22_bytes : exists f, serialize Checked f22_witness = Ok f /\ parse f = Ok f22_witness.
+Proof. eexists. split; [vm_compute; reflexivity | vm_compute; reflexivity]. Qed.
+(* ... and with the label map in the adversarial order (the set's label first) the repaired lookup still finds the table at 12
+   and the reader returns the value, while the lookup of the code before the repair returns the set's address 1040 *)
+Example C17_regression_F22_adversarial_order :
+  let a := set_labels (built f22_witness) [(1040, [ACNT]); (12, [ACNT])] in
+  find_label_address a ACNT = Some 12 /\ from_archive a = Ok f22_witness /\ find_label_address_first a ACNT = Some 1040.
+Proof. cbv zeta. split; [vm_compute; reflexivity | split; [vm_compute; reflexivity | vm_compute; reflexivity]]. Qed.
